@@ -1304,6 +1304,37 @@ def apply_at_anchors(src, item, ed, spec):
             c = nodes_of(item, "match")
         elif kind == "arm":
             c = [n for n in nodes_of(item, "arm") if sel is None or n["pat_text"] == sel.replace(" ", "")]
+        elif kind == "exits":
+            # an obligation on every SUCCESSFUL exit of the function, wherever the exits are: before each `return Ok(..)`
+            # and before the tail expression if it is `Ok(..)`; `?` and `return Err(..)` are the failing exits.  An exit
+            # that cannot be told apart (`return res;`, a call as tail) loses the anchor.
+            txt = at["text"].strip()
+            outs = []
+            for rn in nodes_of(item, "return"):
+                if any(an["kind"] == "closure" for an in ancestors(item, rn)):
+                    continue
+                t = re.sub(r"\s+", "", src.text(*rn["range"]))
+                if t.startswith("returnOk("):
+                    outs.append(rn["range"])
+                elif not t.startswith("returnErr("):
+                    raise LostAnchor(f"exit `{t[:40]}` of {spec['path']} is neither Ok(..) nor Err(..)")
+            if item.get("stmts"):
+                last = item["stmts"][-1]
+                t = re.sub(r"\s+", "", src.text(*last))
+                if t.startswith("Ok("):
+                    outs.append(last)
+                elif not (t.startswith("return") or t.startswith("Err(")):
+                    raise LostAnchor(f"tail `{t[:40]}` of {spec['path']} is neither Ok(..) nor Err(..)")
+            if not outs:
+                raise LostAnchor(f"no successful exit found in {spec['path']}")
+            for rg in outs:
+                par_arm = [a for a in nodes_of(item, "arm") if not a["body_is_block"] and list(a["body"]) == list(rg)]
+                if par_arm:
+                    ed.insert(rg[0], "{ " + txt + " ", "ghost")
+                    ed.insert(rg[1], " }", "ghost")
+                else:
+                    ed.insert(rg[0], txt + "\n", "ghost")
+            continue
         elif kind == "tail":
             # before the function's tail expression (its last top-level statement)
             if not item.get("stmts"):
